@@ -31,6 +31,7 @@ type c14Plan struct {
 	Direct   []string `json:"direct_table_ops"`
 	Garbage  []string `json:"garbage_kinds"`
 	Traffic  int      `json:"traffic_lines"`
+	Flap     bool     `json:"endpoints_come_and_go"`
 	AdvanceS int      `json:"advance_s"`
 }
 
@@ -330,6 +331,7 @@ func scenC14(x *Exec) {
 		p.Garbage = append(p.Garbage, []string{"plain-binary", "plain-longline", "pickle-random", "pickle-hugelen", "pickle-prefix-garbage", "pickle-wrongtypes", "udp-binary", "amqp-binary"}[g.Pick(8)])
 	}
 	p.Traffic = 5 + g.Intn(40)
+	p.Flap = g.Bool(0.5)
 	p.AdvanceS = []int{25, 70, 130}[g.Pick(3)]
 	x.Out.Sample = p
 	cfg0.Horizon = 3 * time.Hour
@@ -376,8 +378,32 @@ func scenC14(x *Exec) {
 			s.Probe("c14.config_rejected_with_error")
 		}
 		// some of the configured destinations exist and read what they get
+		var c14eps []*Endpoint
 		for i := 1; i <= 3; i++ {
-			NewEndpoint(s, nw, fmt.Sprintf("10.5.0.%d:2003", i)).Start()
+			ep := NewEndpoint(s, nw, fmt.Sprintf("10.5.0.%d:2003", i))
+			ep.ResetOnDown = i == 2
+			ep.Start()
+			c14eps = append(c14eps, ep)
+		}
+		if p.Flap {
+			// ... and come and go while the relay works with whatever buffer, flush and spool settings the commands gave it
+			s.Spawn("flapper", "endpoint", "faults", func() {
+				for k := 0; k < 12; k++ {
+					simrt.Sleep(time.Duration([]int{300, 1500, 40, 7000, 900, 2500}[k%6]) * time.Millisecond)
+					ep := c14eps[k%3]
+					if ep.Up {
+						ep.Down()
+					} else {
+						ep.Start()
+					}
+				}
+				for _, ep := range c14eps {
+					if !ep.Up {
+						ep.Start()
+					}
+				}
+			})
+			s.Probe("c14.flapping_endpoints")
 		}
 		NewEndpoint(s, nw, "10.5.1.1:2003").Start()
 		simrt.Sleep(5 * time.Millisecond)
